@@ -23,6 +23,7 @@ from vlib.util import V, exc_msg, exc_sig, tmpdir
 PROPERTY = "C14"
 LEVEL = "exploration"
 DEADLINE = 300
+CHUNK = 1
 RULE = ("Monitor 1: all operation sequences over put(k, fresh unique value[, duration])/get(k)/clear (+ reopen for "
         "DiskCache) up to renaming of a 3-4 key alphabet (actual key objects 'a', 7, ('t', 2), 2.5 rotated per "
         "descriptor), max_size 1..3 (Disk also None), depth <=7 LRU/Simple, <=5 Hybrid, <=5 Disk, each replayed on a "
@@ -834,14 +835,30 @@ def stress(desc, v, stats):
 WEIGHTS = [(0.5, 0.5), (1.0, 0.0), (0.0, 1.0), (0.3, 0.7)]
 
 
-def _tree(descs, cfg, depth, plen, diag_every=0):
+def _tree(descs, cfg, depth, plen, diag=False, head=()):
+    """One descriptor per canonical prefix of length `plen` (after the fixed `head` ops)."""
     durs, reopen = cfg_ops(cfg)
-    for j, pre in enumerate(M.prefixes(cfg["cls"], cfg["K"], durs, reopen, plen)):
+    head = [tuple(o) for o in head]
+    used = 0
+    for o in head:
+        used = M.used_after(used, o)
+    tails = []
+
+    def rec(path, u):
+        if len(path) == plen:
+            tails.append(list(path))
+            return
+        for op in M.ops_at(cfg["cls"], u, cfg["K"], durs, reopen):
+            path.append(op)
+            rec(path, M.used_after(u, op))
+            path.pop()
+
+    rec([], used)
+    for j, tail in enumerate(tails):
         c = dict(cfg)
         c["perm"] = (len(descs) + j) % 4
-        c["sparse"] = (len(descs) % 4 == 3)
-        descs.append({"kind": "tree", "cfg": c, "depth": depth, "prefix": [list(o) for o in pre],
-                      "diag": bool(diag_every and j % diag_every == 0)})
+        c["sparse"] = (len(descs) % 4 == 3) and not diag
+        descs.append({"kind": "tree", "cfg": c, "depth": depth, "prefix": [list(o) for o in head + tail], "diag": bool(diag)})
 
 
 def plan(tier, seed):
@@ -849,8 +866,9 @@ def plan(tier, seed):
     descs = []
     # ---- Monitor 1: trees
     for m in (1, 2, 3):
-        _tree(descs, {"cls": "LRU", "max_size": m, "K": 3}, 7, 2, diag_every=3)
+        _tree(descs, {"cls": "LRU", "max_size": m, "K": 3}, 7, 3)
         _tree(descs, {"cls": "LRU", "max_size": m, "K": 4}, 6 if q else 7, 2 if q else 3)
+        _tree(descs, {"cls": "LRU", "max_size": m, "K": 3}, 5 if q else 6, 1, diag=True)  # icontract diagnostic on
     _tree(descs, {"cls": "Simple", "max_size": None, "K": 3}, 6 if q else 7, 2)
     _tree(descs, {"cls": "Simple", "max_size": None, "K": 4}, 5 if q else 6, 2)
     for m in (1, 2, 3):
@@ -867,6 +885,11 @@ def plan(tier, seed):
             if q and m is None and with_lru:
                 continue
             _tree(descs, {"cls": "Disk", "max_size": m, "K": 3, "with_lru": with_lru, "lru_size": lsz}, 4 if q else 5, 2)
+            if m in ((3,) if q else (2, 3, None)) and lsz == (128 if not with_lru else 2):
+                # pre-filled directory: reaches reopen-with-smaller-max_size followed by a multi-file eviction
+                _tree(descs, {"cls": "Disk", "max_size": m, "K": 3, "with_lru": with_lru, "lru_size": lsz}, 6 if q else 7, 1,
+                      head=[("put", 0, None), ("put", 1, None), ("put", 2, None)])
+    _tree(descs, {"cls": "Disk", "max_size": 2, "K": 3, "with_lru": True, "lru_size": 2}, 4, 1, diag=True)
     # ---- random longer histories, non-shared
     nh = 12 if q else 60
     i = 0
@@ -902,8 +925,12 @@ def plan(tier, seed):
         descs.append({"kind": "stress", "seed": seed, "i": j, "cls": cls, "workers": 3 + (j // 5) % 2, "nops": 300,
                       "segment": 100, "mode": "pickled" if (j // 10) % 2 == 0 else "inherit", "inject": inj})
     # expensive ones first
-    order = {"stress": 0, "random": 1, "tree": 2}
-    descs.sort(key=lambda d: order[d["kind"]])
+    def cost(d):
+        if d["kind"] != "tree":
+            return 0 if d["kind"] == "stress" else 1
+        return 2 if d["cfg"]["cls"] == "LRU" and not d.get("diag") else 3
+
+    descs.sort(key=cost)
     return descs
 
 
